@@ -19,6 +19,7 @@ type vfC14Item struct {
 	Len   int    `json:",omitempty"`
 	Off   int    `json:",omitempty"` // READ offset
 	Fail  bool   `json:",omitempty"` // request server: the handler's ReadAt/WriteAt for this request fails (seed C14-c)
+	HCmd  string `json:",omitempty"` // "FSTAT" | "FSETSTAT" on handle H, somewhere before its CLOSE: a command on the handle is not a close (seed C14-g)
 }
 
 // offsets from here on fail in the handler: far beyond anything the pipelines read or write
@@ -57,6 +58,9 @@ func vfGenC14(t *rapid.T) vfCaseC14 {
 		}
 		if c.Srv.Kind == "rs" && rapid.IntRange(0, 7).Draw(t, "iofail") == 0 {
 			it.Fail = true
+		}
+		if rapid.IntRange(0, 9).Draw(t, "hcmd") == 0 {
+			it = vfC14Item{H: h, HCmd: rapid.SampledFrom([]string{"FSTAT", "FSETSTAT"}).Draw(t, "hcmdkind")}
 		}
 		c.Burst = append(c.Burst, it)
 	}
@@ -154,6 +158,11 @@ func vfRunC14(ctx *vfCtx, c vfCaseC14) {
 		case it.Close:
 			p = &vfPkt{Type: vfFxpClose, ID: ps.id(), Handle: []byte(handleOf[it.H])}
 			sawClose = true
+		case it.HCmd == "FSTAT":
+			p = &vfPkt{Type: vfFxpFstat, ID: ps.id(), Handle: []byte(handleOf[it.H])}
+		case it.HCmd == "FSETSTAT":
+			// times only: nothing the content or size checks below depend on
+			p = &vfPkt{Type: vfFxpFsetstat, ID: ps.id(), Handle: []byte(handleOf[it.H]), Attrs: &vfAttrs{Flags: vfAttrACModTime, Atime: 1111111111, Mtime: 1222222222}}
 		case it.Fail && ps.srv.h != nil && c.Kinds[it.H] == "R":
 			p = &vfPkt{Type: vfFxpRead, ID: ps.id(), Handle: []byte(handleOf[it.H]), Offset: vfC14Poison + uint64(it.Off), Len: uint32(it.Len)}
 		case it.Fail && ps.srv.h != nil:
@@ -167,7 +176,7 @@ func vfRunC14(ctx *vfCtx, c vfCaseC14) {
 			model[it.H] = append(model[it.H], data...)
 			p = &vfPkt{Type: vfFxpWrite, ID: ps.id(), Handle: []byte(handleOf[it.H]), Offset: uint64(off), Data: data}
 		}
-		if !it.Close && it.Cmd == nil && !sawClose {
+		if !it.Close && it.Cmd == nil && it.HCmd == "" && !sawClose {
 			rwBeforeClose++
 		}
 		pkts = append(pkts, p)
@@ -246,6 +255,14 @@ func vfRunC14(ctx *vfCtx, c vfCaseC14) {
 			break
 		}
 		req, rep := ps.reqs[i], pk[i]
+		if it := c.Burst[i-firstBurst]; it.HCmd != "" {
+			ok := (it.HCmd == "FSTAT" && rep.Type == vfFxpAttrs) || (it.HCmd == "FSETSTAT" && rep.Type == vfFxpStatus && rep.Code == vfFxOK)
+			if !ok {
+				ctx.Failf("C14/handle-command-failed/"+kind, "%s #%d on a handle that was open when it was sent was answered %s", it.HCmd, i, vfPktString(rep))
+			}
+			ctx.Class("handle-command")
+			continue
+		}
 		if it := c.Burst[i-firstBurst]; it.Fail && ps.srv.h != nil && !it.Close && it.Cmd == nil {
 			// the injected handler failure is this request's own answer and nobody else's business
 			if rep.Type != vfFxpStatus || rep.Code == vfFxOK || rep.Code == vfFxEOF {
